@@ -28,7 +28,15 @@ def run(ctx):
     w_hist.run_orders(ctx)
     ctx.deadline = saved
     w_hist.run_histories(ctx)
+    if ctx.shard == 0:
+        # "retrieving a signature repeatedly gives equal results": also when the repetition comes from a second
+        # thread while the first retrieval of the same object is still in progress
+        from .. import w_wrap
+        w_wrap.check_while_another_thread_computes(ctx, prop='C18')
 
 
 def replay(ctx, rec):
+    if rec.get('workload') == 'wrap-threads':
+        from .. import w_wrap
+        return w_wrap.check_while_another_thread_computes(ctx, prop='C18')
     w_hist.replay(ctx, rec)
